@@ -65,6 +65,9 @@ type Item struct {
 	Split bool
 	// NoCache disables happens-before state caching for this item.
 	NoCache bool
+	// Race turns on the happens-before race monitor for instrumented map accesses; every detected pair of unordered
+	// conflicting accesses is a failure of clause "data-race".
+	Race bool
 }
 
 type Options struct {
@@ -223,9 +226,12 @@ func (rp *Report) runOnce(it *Item, prefix []int, fps []uint64, trace bool) (*Ex
 
 func (rp *Report) runOnceV(it *Item, prefix []int, fps []uint64, trace bool, visit func(uint64, int) bool) (*Exec, *rt.Result) {
 	x := &Exec{Item: it.Name}
-	cfg := rt.Config{Prefix: prefix, PrefixFP: fps, MaxSteps: it.MaxSteps, MaxClock: it.MaxClock, Trace: trace, Visit: visit}
+	cfg := rt.Config{Prefix: prefix, PrefixFP: fps, MaxSteps: it.MaxSteps, MaxClock: it.MaxClock, Trace: trace, Visit: visit, Race: it.Race}
 	res := rt.Execute(cfg, func() { it.Body(x) })
 	x.Res = res
+	for _, rc := range res.Races {
+		x.Fail("data-race", "race/"+rc.SiteA+"+"+rc.SiteB, "unsynchronised accesses to one %s: %s; %s (no happens-before order between them: a free-running process can die with 'concurrent map read and map write')", rc.Map, rc.First, rc.Second)
+	}
 	for _, fn := range x.cleanups {
 		fn()
 	}
